@@ -434,10 +434,10 @@ def build_probes(sc):
     return bins
 
 
-def run_once(binary, test, ops_path, out_path, timeout):
+def run_once(binary, test, ops_path, out_path, timeout, env=None):
     """One probe process.  Returns (rc, log); a timeout is rc=-9."""
     try:
-        return C.run_probe(binary, test, ops_path, out_path, timeout=timeout)
+        return C.run_probe(binary, test, ops_path, out_path, timeout=timeout, env=env)
     except subprocess.TimeoutExpired:
         return -9, f'timeout after {timeout}s'
 
@@ -517,7 +517,9 @@ def run_site(bins, ops, sc):
             ops_path, outp = sc.path(f'site.{p["tag"]}.ops'), sc.path(f'site.{p["tag"]}.impl')
             with open(ops_path, 'w') as f:
                 f.write('\n'.join(ops[i] for i in pending) + '\n')
-            rc, log = run_once(p['bin'], 'TestVerifC15Site', ops_path, outp, 600)
+            # relocated code runs inside functions whose stack maps describe other code: keep the runtime's signal-based
+            # preemption out of that window (the probe also disables the collector)
+            rc, log = run_once(p['bin'], 'TestVerifC15Site', ops_path, outp, 600, env={'GODEBUG': 'asyncpreemptoff=1'})
             got = C.read_indexed(outp, len(pending))
             rest = []
             for j, i in enumerate(pending):
